@@ -8,7 +8,7 @@ GEN: the same TLC runs export one shortest history per transition (pre-state, op
      both tiers add seeded random histories for XalanSet / XalanMap with the library's default parameters.
 RUN: harness/c20.cpp (ASan/UBSan build) replays them on the real templates and XalanDOMString and logs every observable.
 TV : Trace_C20.tla accepts an execution iff every step is a step of the abstract model (Containers.tla)."""
-import bisect, glob, os, random, re, subprocess, time
+import bisect, glob, json, os, random, re, subprocess, time
 from concurrent.futures import ThreadPoolExecutor
 import vlib, tlaparse
 from vlib import ROOT
@@ -113,23 +113,24 @@ def tags_of(st):
     return sorted(tlaparse.parse_value(raw))
 
 
-def export_histories(dump, need, cap_tagged, cap_plain, seed):
+def export_histories(dump, need, caps, seed):
     """the leaf (fin = TRUE) states of the dump = one shortest history per transition.  All of them were checked by
-    TLC; the real code replays those whose last operation takes one of the `need` branches (up to cap_tagged) and a
-    seeded sample of the others (up to cap_plain), chosen by hash so that TLC's worker interleaving has no say."""
+    TLC; the real code replays those whose last operation takes one of the `need` branches (up to caps[0]), a seeded
+    sample of the others (up to caps[1]) and of those that end in a known deviation (up to caps[2]), chosen by hash
+    so that TLC's worker interleaving has no say."""
     import hashlib
-    tagged, plain, leaves = [], [], 0
+    tagged, plain, dev, leaves = [], [], [], 0
     for st in read_states(dump):
         if st.get("fin") != "TRUE":
             continue
         leaves += 1
         tags = tags_of(st)
         h = hashlib.sha1(("%d|" % seed + st["hist"]).encode()).hexdigest()
-        (tagged if any(t in need for t in tags) else plain).append((h, st["hist"], tags))
-    tagged.sort(); plain.sort()
-    sel = tagged[:cap_tagged] + plain[:cap_plain]
+        (dev if "deviation" in tags else tagged if any(t in need for t in tags) else plain).append((h, st["hist"], tags))
+    tagged.sort(); plain.sort(); dev.sort()
+    sel = tagged[:caps[0]] + plain[:caps[1]] + dev[:caps[2]]
     out = [(tlaparse.parse_value(raw), tags) for _, raw, tags in sel]
-    return out, {"transitions": leaves, "tagged": len(tagged), "replayed": len(out)}
+    return out, {"transitions": leaves, "tagged": len(tagged), "known_deviation": len(dev), "replayed": len(out)}
 
 
 def run_model(m, wd, workers, caps, seed):
@@ -141,7 +142,7 @@ def run_model(m, wd, workers, caps, seed):
     if not r["ok"]:
         raise vlib.Infra("model checking %s failed (rc=%s):\n%s" % (m["name"], r["rc"], r["out"][-4000:]))
     t = time.time()
-    hs, counts = export_histories(dump + ".dump", set(m["need"]), caps[0], caps[1], seed)
+    hs, counts = export_histories(dump + ".dump", set(m["need"]) - {"deviation"}, caps, seed)
     os.remove(dump + ".dump")
     vlib.log("c20: %s: TLC %.1fs (%d distinct), %s, read in %.1fs" % (m["name"], r["wall"], r["distinct"], counts, time.time() - t))
     return r, hs, counts
@@ -362,7 +363,7 @@ def run(res, tier, seed):
     exe_future = ThreadPoolExecutor(max_workers=1).submit(build_exe)
     cases, tagcount = [], {}
     par = 3 if quick else 2
-    caps = (1600, 900) if quick else (40000, 20000)
+    caps = (1600, 900, 120) if quick else (20000, 8000, 600)
     with ThreadPoolExecutor(max_workers=par) as ex:
         outs = list(ex.map(lambda m: run_model(m, wd, max(2, vlib.NCPU // (par + 1)), caps, seed), ms))
     for m, (r, hs, counts) in zip(ms, outs):
@@ -389,6 +390,7 @@ def run(res, tier, seed):
                 cases.append({"c": m["c"], "p": m["p"], "ops": h, "tags": tags, "model": m["name"] + "-sim"})
             tagcount[m["name"] + "-sim"] = {"histories": len(hs)}
     cases += random_set_cases(rnd, 12 if quick else 60, 140 if quick else 260, 64)
+    random.Random(seed).shuffle(cases)                 # spread long / short executions evenly over the shards
     # ---- RUN
     exe = exe_future.result()
     t1 = time.time()
@@ -404,7 +406,7 @@ def run(res, tier, seed):
     res.cov["evaluations"] = len(execs)
     # ---- TV
     t2 = time.time()
-    rejects, st = vlib.tlc_validate_sharded(TRACE, events, shards=6 if quick else 10, tag="c20tv", timeout=3000)
+    rejects, st = vlib.tlc_validate_sharded(TRACE, events, shards=8 if quick else 12, tag="c20tv", timeout=3000)
     res.notes["tv_states"] = st["tv_states"]
     res.notes["tv_wall_s"] = round(time.time() - t2, 1)
     known = {k["key"]: k for k in vlib.known_findings(PROP)}
@@ -425,7 +427,11 @@ def run(res, tier, seed):
         if key and key in known:
             res.known(known[key])
         else:
-            msg = rj["msg"][:300]
+            op = case["ops"][k - 2] if 0 <= k - 2 < len(case["ops"]) else {"op": ex_[k].get("op")}
+            msg = "%s %s: not a step of the abstract model; before: %s; recorded: %s" % (
+                case["c"], json.dumps(op, sort_keys=True), json.dumps(ex_[k - 1].get("obs")) if k >= 1 else "-",
+                json.dumps({x: y for x, y in ex_[k].items() if x in ("res", "obs", "other", "tmp", "live", "bad", "otherLen", "otherTerm")}))
+            msg = msg[:700]
             if ex_[k].get("e") == "Abort":
                 op = case["ops"][k - 2] if 0 <= k - 2 < len(case["ops"]) else {}
                 msg = "%s %s aborted the real code (%s)" % (case["c"], op, sanitizer_summary(stderr_text) or "status %s" % ex_[k].get("status"))
@@ -443,7 +449,7 @@ def run(res, tier, seed):
                        "XalanMap%s; non-trivial = the last operation takes a tagged branch of the transcribed algorithm (rehash, reuse of a "
                        "freed node, bucket compaction, stale bucket reference, reallocation, in-place insertion / self insertion, element "
                        "shifting, block recycling, splice, a known deviation) or the history is a long random one; distinct by hash of "
-                       "(container, parameters, operations)" % (caps[0], caps[1], "" if quick else " and tlc -simulate histories of 40 operations"))
+                       "(container, parameters, operations)" % (caps[0], caps[1] + caps[2], "" if quick else " and tlc -simulate histories of 40 operations"))
     by = {}
     for case in cases:
         by[case["c"]] = by.get(case["c"], 0) + 1
